@@ -1,0 +1,28 @@
+//go:build verif
+
+package executor
+
+import (
+	"context"
+
+	ds "github.com/ipfs/go-datastore"
+)
+
+// Verification hooks for property C15 (build tag "verif"); nothing here changes behaviour.
+
+// VerifC15New builds a KVExecutor over a caller-supplied datastore (what NewKVExecutor does after
+// opening the on-disk store).
+func VerifC15New(db ds.Batching) *KVExecutor {
+	return &KVExecutor{db: db, txChan: make(chan []byte, txChannelBufferSize)}
+}
+
+// VerifC15DB exposes the datastore (to dump it and to close it before a reopen).
+func (k *KVExecutor) VerifC15DB() ds.Batching { return k.db }
+
+// VerifC15Root is the unexported computeStateRoot, read-only.
+func (k *KVExecutor) VerifC15Root(ctx context.Context) ([]byte, error) {
+	return k.computeStateRoot(ctx)
+}
+
+// VerifC15MempoolCap is the mempool channel capacity.
+func VerifC15MempoolCap() int { return txChannelBufferSize }
